@@ -224,6 +224,7 @@ pub fn check_a(case: &Case) -> Verdict {
     let cfg = &case.cfg;
     let cdoc = normalise_doc(cfg, &case.doc);
     let plain = cdoc.to_document(&cfg.id0.0, case.xref_stream);
+    let _rng = FixedLopdfRng::new(case.seed ^ 0x6c6f_7064_665f_6832);
     let state = match no_panic("EncryptionState::try_from", || cfg.lopdf_state(&plain))? {
         Ok(s) => s,
         Err(_) => {
